@@ -30,6 +30,9 @@ KNOB_DEFAULTS = {
     "SEND_THRESHOLD_TICKER": 0.05,
     "WAITING_CONN_TIMER": 2,
     "LISTENING_TICKER": 0.01,
+    "REQUEST_THRESHOLD": 40,
+    "ANSWER_THRESHOLD": 40,
+    "SEND_THRESHOLD": 50,
 }
 
 KNOB_MODULES = {
@@ -43,6 +46,9 @@ KNOB_MODULES = {
     "SEND_THRESHOLD_TICKER": ["bromelia", "statemachine"],
     "WAITING_CONN_TIMER": ["setup", "bromelia", "statemachine"],
     "LISTENING_TICKER": ["setup", "bromelia", "statemachine"],
+    "REQUEST_THRESHOLD": ["bromelia"],
+    "ANSWER_THRESHOLD": ["bromelia"],
+    "SEND_THRESHOLD": ["bromelia"],
 }
 
 
